@@ -89,6 +89,17 @@ def gen(rng, i):
         if rng.random() < 0.3:
             lines.append("    else -> { h2(); }")
         body = ("greedy case {\n" if greedy else "case {\n") + "\n".join(lines) + "\n  }\n  " + rng.choice(['";";', '"a";', 'h0(); "$";', '/[ab]+/; "$";'])
+    elif k < 0.48:   # three clauses finishing on the same string, the top priority shared or not
+        p = [rng.randint(0, 2) for _ in range(3)]
+        kw = rng.choice(["if", "ab", "a1"])
+        lines = [f'    prio {p[0]} /[a-z][a-z0-9]*/ -> {{ x = 1; }}', f'    prio {p[1]} "{kw}" -> {{ x = 2; }}',
+                 f'    prio {p[2]} /{kw[0]}[{kw[1]}-{kw[1]}z]/ -> {{ x = 3; }}']
+        rng.shuffle(lines)
+        body = "greedy case {\n" + "\n".join(lines) + '\n  }\n  ";";'
+    elif k < 0.56:   # A ended by look-ahead, then an if whose branches start differently
+        r = rx(rng)
+        b1, b2 = rng.sample(['"a";', '"b";', '/[ab]/;', '/\\d/;', '/[^a]/; ";";', '";";', '/b+c/;'], 2)
+        body = f'optional {{ "q"; x = 1; }}\n  /{r}/;\n  if x == 1 {{ {b1} }} else {{ {b2} }}\n  "$";'
     else:         # A; B with A ended by look-ahead
         first_b = rng.choice(['"a";', '"b";', '/[ab]/;', '/b+c/;', '/\\d/;', '";";', 'case { "a" -> { h1(); } ";" -> { } }',
                               'optional { "b"; }  ";";', 'wait "b";', '/[^a]/;', 'loop { case { "a" -> { } ";" -> { break; } } }'])
